@@ -526,6 +526,13 @@ func runC18(c *Ctx) {
 							if id, ok := ast.Unparen(num).(*ast.Ident); ok && info.ObjectOf(id) == prms[0] {
 								digits = true
 							} else {
+								// the parameter with arithmetic on it (length+1): still the header builder, and not the length
+								ast.Inspect(num, func(q ast.Node) bool {
+									if qid, ok := q.(*ast.Ident); ok && info.ObjectOf(qid) == prms[0] {
+										digits = true
+									}
+									return true
+								})
 								arith = true
 							}
 							if len(v.Args) >= 2 && fn.Name() != "Itoa" {
